@@ -480,6 +480,61 @@ rows. -/
 def runFlows (p : Plan) (zeroLast : Bool) (flows : List (List TRow)) : AList Key :=
   coordinate p (flows.map fun fl => intoPartial zeroLast (sinkAgg p fl))
 
+/-! ### the reference fold (specification) on the rows of one group -/
+
+/-- integer readings of field `f` -/
+def numsOf (f : Nat) (rs : List Row) : List Int := rs.filterMap (numAt · f)
+
+/-- strings of the cells of `f` that have no integer reading -/
+def strsOf (f : Nat) (rs : List Row) : List String :=
+  rs.filterMap fun r =>
+    match cellAt r f with
+    | some c => if c.num.isNone then c.str else none
+    | none => none
+
+/-- the winner of a list under `pick lt` (minimum for `lt = <`, maximum for `lt = >`) -/
+def bestOf {α : Type} (lt : α → α → Bool) (xs : List α) : Option α :=
+  xs.foldl (fun acc x => opick lt acc (some x)) none
+
+/-- the distinct values of a list, first occurrences in order -/
+def distinct (xs : List String) : List String := xs.foldl (fun acc v => insertU v acc) []
+
+/-- What each metric reports for the rows `rs` of a group, as a plain fold (sums are i64
+wrapping sums; MIN/MAX prefer integer readings over strings; COUNT UNIQUE counts the distinct
+`uval`s). -/
+def spec (m : Metric) (rs : List Row) : Out :=
+  match m with
+  | .countAll => .int (wrap rs.length)
+  | .countField f => .int (wrap (rs.countP (nonNull · f)))
+  | .countUnique f => .int (distinct (rs.map (uval · f))).length
+  | .total f => .int (wrap (numsOf f rs).sum)
+  | .avg f => .avg (wrap (numsOf f rs).sum) (wrap (numsOf f rs).length)
+  | .min f =>
+    match bestOf ltI (numsOf f rs) with
+    | some v => .int v
+    | none => .str ((bestOf ltS (strsOf f rs)).getD "")
+  | .max f =>
+    match bestOf gtI (numsOf f rs) with
+    | some v => .int v
+    | none => .str ((bestOf gtS (strsOf f rs)).getD "")
+
+/-- the aggregator of metric `m` after the rows `rs`, in order -/
+def fstate (m : Metric) (rs : List Row) : St := rs.foldl (fun s r => update m r s) (init m)
+
+/-- A cell as `toCell` builds it: a string column's integer reading is the parse of its string. -/
+def Cell.WF (c : Cell) : Prop := ∀ s, c.str = some s → c.num = parseI64 s
+
+def RowWF (r : Row) : Prop := ∀ f c, cellAt r f = some c → c.WF
+
+/-- fields of MIN / MAX metrics -/
+def Metric.minMaxField : Metric → Option Nat
+  | .min f => some f
+  | .max f => some f
+  | _ => none
+
+/-- the final key a row ends up under -/
+def finalKey (p : Plan) (r : Row) : Key := wireKey p (rowKey p r)
+
 /-! ### which rows are fed to the aggregator (FOR / SINCE / type in aggregate mode)
 
 `ConditionEvaluatorBuilder::build_from_plan` adds the special-field conditions (event type,
